@@ -45,6 +45,10 @@ func c10Bases(seed int64, thorough bool) []*e2eCase {
 	mk(false, false, 4, true, true, []int64{5000, 7000}, other) // directory, overwrite
 	// overwrite with pre-existing files of the same names (had begun to replace; the resume hash exchange)
 	mk(true, false, 4, false, true, []int64{6000, 6000}, []e2eNode{{Rel: e2eName(0, 0), Size: 50}, {Rel: "keepme.txt", Size: 100}})
+	// directory mode with overwrite into a directory that already exists and holds other content
+	inside := []e2eNode{{Rel: "tree/keep.txt", Size: 120}, {Rel: "tree/docs/notes.txt", Size: 80}, {Rel: "keepme.txt", Size: 100}}
+	mk(true, false, 4, true, true, []int64{6000, 4000}, inside)
+	mk(false, true, 3, true, true, []int64{6000}, inside)
 	if thorough {
 		mk(true, false, 2, false, false, []int64{9000}, nil)
 		mk(false, false, 3, false, false, []int64{9000, 10}, nil)
